@@ -43,6 +43,9 @@ FIXED = [
 ]
 KNOWN = [
  # (property, id, bucket, what, replay)
+ ("C12", "K1", ["normalized-laplacian", "weighted", "uses-unweighted-vertex-degrees"],
+  "normalized_hypergraph_laplacian(H, weighted=True) with an edge weight != 1 keeps unweighted vertex degrees: not the textbook (Zhou et al.) matrix and, for a weight > 1, not PSD (input: Hypergraph([[1, 2]]) with weight 10 -> eigenvalue -9). Not repaired: tests/linalg/test_matrix.py::test_fix_647 asserts exactly this formula (2L - I for a uniform weight 2).",
+  "replays/C12-K1-weighted-normalized-laplacian.json"),
 ]
 def main():
     out = []
